@@ -33,14 +33,14 @@ PROPS = {
         "text": "every proper prefix of a chunk is eof (proved); exhaustive cut positions on real archives",
     },
     "C13": {
-        "lean": ["PnaVerif.Props.Consts", "PnaVerif.Props.C13", "PnaVerif.Props.C13Entry"],
+        "lean": ["PnaVerif.Props.Consts", "PnaVerif.Props.C13", "PnaVerif.Props.C13Entry", "PnaVerif.Props.C04Read"],
         "families": ["chunk", "parse", "entry", "edit", "concat"],
         "cli": True,
         "trusted": COMMON_TRUST,
         "text": "chunk encode/decode exact inverses (proved); raw items compared chunk for chunk",
     },
     "C18": {
-        "lean": ["PnaVerif.Props.Consts", "PnaVerif.Props.C18", "PnaVerif.Props.C18ChunkList"],
+        "lean": ["PnaVerif.Props.Consts", "PnaVerif.Props.C18", "PnaVerif.Props.C18ChunkList", "PnaVerif.Props.C18Entry"],
         "families": ["chunk", "entry", "roundtrip", "split", "edit", "chunk-list"],
         "cli": True,
         "ops": {"edit": []},
@@ -49,7 +49,7 @@ PROPS = {
     },
     "C07": {
         "lean": ["PnaVerif.Props.Consts", "PnaVerif.Props.C07", "PnaVerif.Props.C07Solid"],
-        "families": ["parse", "entry", "codec", "truncate", "foreign", "hostile-solid", "cli-hostile"],
+        "families": ["parse", "entry", "codec", "truncate", "foreign", "hostile-solid", "cli-hostile", "cli-tree"],
         "cli": True,
         "trusted": COMMON_TRUST,
         "text": "no model read path reaches a panic outcome (proved for all inputs); hostile/mutated/truncated streams through the real readers under catch_unwind",
@@ -69,7 +69,7 @@ PROPS = {
         "text": "library codecs: dec(enc v) = v under explicit domain predicates (proved); codecs compared through hooks",
     },
     "C01": {
-        "lean": ["PnaVerif.Props.Consts", "PnaVerif.Props.C01", "PnaVerif.Props.C07Solid", "PnaVerif.Props.C01Archive"],
+        "lean": ["PnaVerif.Props.Consts", "PnaVerif.Props.C01", "PnaVerif.Props.C07Solid", "PnaVerif.Props.C01Archive", "PnaVerif.Props.C01Multipart"],
         "families": ["cipher-sm", "roundtrip", "foreign"],
         "trusted": COMMON_TRUST + CRYPTO_TRUST,
         "text": "writer partition independence, reader schedule independence and pipeline round trip proved for every lawful cipher/codec; state machines tied by cipher-sm, end to end by roundtrip",
@@ -89,7 +89,7 @@ PROPS = {
         "text": "data-flow structure proved (plaintext only through E / XOR keystream, PHSF without hash, one salt+IV draw per context); leakage and freshness sampled",
     },
     "C04": {
-        "lean": ["PnaVerif.Props.Consts", "PnaVerif.Props.C04", "PnaVerif.Props.C04Multipart"],
+        "lean": ["PnaVerif.Props.Consts", "PnaVerif.Props.C04", "PnaVerif.Props.C04Multipart", "PnaVerif.Props.C04Read"],
         "families": ["split", "concat"],
         "cli": True,
         "trusted": COMMON_TRUST,
@@ -117,7 +117,7 @@ PROPS = {
         "text": "append/update/delete specifications and the history invariant proved over ordered entry lists; real pna histories on an evolving tree compared with the model after every step",
     },
     "C14": {
-        "lean": ["PnaVerif.Props.Consts", "PnaVerif.Props.C14"],
+        "lean": ["PnaVerif.Props.Consts", "PnaVerif.Props.C14", "PnaVerif.Props.C14Layout"],
         "families": ["roundtrip", "split", "edit", "history", "concat"],
         "cli": True,
         "ops": {"roundtrip": ["archive.read.stream"], "split": ["split.archive", "multipart.read"], "edit": [], "history": [], "concat": ["concat"]},
